@@ -1449,6 +1449,8 @@ class ArgumentParser(ParserDeprecations, ActionsContainer, ArgumentLinking, argp
         elif isinstance(action, _ActionConfigLoad):
             if isinstance(value, str):
                 value = action.check_type(value, self)
+            elif value is not None and not isinstance(value, (Namespace, dict)) and not lenient_check.get():
+                raise TypeError(f'Key "{key}" expects a mapping but got: {value!r}')
         elif hasattr(action, "_check_type"):
             with parser_context(parent_parser=self):
                 value = action._check_type_(value, cfg=cfg)  # type: ignore[attr-defined]
